@@ -496,8 +496,15 @@ def rule_occthresh(ctx):
             t = c if p else tm.unop("not", c)
             g = t if g is None else tm.boolop("and", [g, t])
             for z in tm.walk(c):
-                if z.op == "call" and call_name(z) in ("np.max", "np.amax", "builtins.max") and z is not thr:
-                    mx = z
+                # the maximum that is compared with the threshold (a helper evaluated in place may bring other maxima)
+                if z.op == "cmp" and any(w is thr for w in z.a[1:]):
+                    for w in z.a[1:]:
+                        if w.op == "call" and call_name(w) in ("np.max", "np.amax", "builtins.max"):
+                            mx = w
+            if mx is None:
+                for z in tm.walk(c):
+                    if z.op == "call" and call_name(z) in ("np.max", "np.amax", "builtins.max") and z is not thr:
+                        mx = z
         need(mx is not None, R, "occurrence_FPR: the threshold is not compared with a maximum of the score matrix")
         eq = finmodel.equivalent(g, tm.cmp("<=", thr, mx))
         need(eq is not None, R, "occurrence_FPR: threshold guard %s is not a comparison of max(s) with thres" % tm.show(g, 3))
